@@ -82,7 +82,7 @@ class DiagonalGaussian(_ProbabilisticModel):
         D = self.mean.shape[-1]
         difference = y - self.mean[..., None, :]
         white_x = np.einsum(
-            '...dD,...nD->...nd',
+            '...d,...nd->...nd',
             self.precision_cholesky,
             difference
         )
